@@ -1,16 +1,28 @@
-// Package vnet stands in for "net" in the batching pool's sources when compiled for the
-// verification harness: Dial can be redirected to in-memory connections.
+// Package vnet stands in for "net" in selected rend sources (the batching pool, the cluster
+// handler, the handler constructors and the listeners of server/listen.go) when they are compiled
+// for the verification harness: Dial and Listen can be redirected to in-memory connections.
 package vnet
 
-import "net"
+import (
+	"net"
+	"time"
+)
 
 type (
-	Conn     = net.Conn
-	Addr     = net.Addr
-	Listener = net.Listener
-	Error    = net.Error
-	OpError  = net.OpError
+	Conn       = net.Conn
+	Addr       = net.Addr
+	Listener   = net.Listener
+	Error      = net.Error
+	OpError    = net.OpError
+	TCPAddr    = net.TCPAddr
+	UnixAddr   = net.UnixAddr
+	IP         = net.IP
+	UnixConn   = net.UnixConn
+	AddrError  = net.AddrError
+	PacketConn = net.PacketConn
 )
+
+var ErrClosed = net.ErrClosed
 
 // DialHook, when set, replaces net.Dial.
 var DialHook func(network, address string) (net.Conn, error)
@@ -21,3 +33,39 @@ func Dial(network, address string) (net.Conn, error) {
 	}
 	return net.Dial(network, address)
 }
+
+func DialTimeout(network, address string, d time.Duration) (net.Conn, error) {
+	if h := DialHook; h != nil {
+		return h(network, address)
+	}
+	return net.DialTimeout(network, address, d)
+}
+
+// ListenHook, when set, replaces net.Listen.
+var ListenHook func(network, address string) (net.Listener, error)
+
+func Listen(network, address string) (net.Listener, error) {
+	if h := ListenHook; h != nil {
+		return h(network, address)
+	}
+	return net.Listen(network, address)
+}
+
+// TCPConn is what a hooked "tcp" listener hands out: an in-memory connection with the socket
+// options of a *net.TCPConn (all of them no-ops).
+type TCPConn struct{ net.Conn }
+
+func (c *TCPConn) SetKeepAlive(bool) error                { return nil }
+func (c *TCPConn) SetKeepAlivePeriod(time.Duration) error { return nil }
+func (c *TCPConn) SetNoDelay(bool) error                  { return nil }
+func (c *TCPConn) SetLinger(int) error                    { return nil }
+func (c *TCPConn) SetReadBuffer(int) error                { return nil }
+func (c *TCPConn) SetWriteBuffer(int) error               { return nil }
+func (c *TCPConn) CloseRead() error                       { return nil }
+func (c *TCPConn) CloseWrite() error                      { return nil }
+
+func JoinHostPort(host, port string) string              { return net.JoinHostPort(host, port) }
+func SplitHostPort(hp string) (string, string, error)    { return net.SplitHostPort(hp) }
+func ParseIP(s string) net.IP                            { return net.ParseIP(s) }
+func ResolveTCPAddr(n, a string) (*net.TCPAddr, error)   { return net.ResolveTCPAddr(n, a) }
+func ResolveUnixAddr(n, a string) (*net.UnixAddr, error) { return net.ResolveUnixAddr(n, a) }
